@@ -545,6 +545,21 @@ func runC13(c *Cfg) {
 		runC13Race(c)
 		return
 	}
+	// enumerations of a store that grows and shrinks by short-lived keys while `keep` long-lived keys are never touched:
+	// every Keys / GetAll result contains all the long-lived keys (a key that is present before, during and after an
+	// operation is in every state that operation could have seen), Len is never below their number
+	for rep := 0; rep < c.Pick(2, 20); rep++ {
+		if !c.Mine(rep + 3) {
+			continue
+		}
+		keep := []int{96, 700, 2048}[rep%3]
+		if f := longLivedKeysStress(keep, 4, 4, c.Pick(400, 4000)); f != "" {
+			r.Violate("C13", "C13:enumeration-misses-long-lived-keys", f, map[string]any{"family": "long-lived-keys", "keep": keep})
+		}
+		r.Eval()
+		r.Count("long_lived_keys.runs", 1)
+		r.Nontrivial(fmt.Sprintf("llk %d %d", keep, rep))
+	}
 	nh := c.Pick(40000, 2000000)
 	var overlapsTotal, unknown int64
 	for i := 0; i < nh; i++ {
@@ -994,4 +1009,86 @@ func checkBigHistory(lc *LinCase, timeout time.Duration) (porcupine.CheckResult,
 		}
 	}
 	return res, overlaps
+}
+
+
+// longLivedKeysStress: see runC13. Returns a description of the first enumeration that missed a long-lived key.
+func longLivedKeysStress(keep, writers, readers, calls int) string {
+	s := flyt.NewSharedStore()
+	for i := 0; i < keep; i++ {
+		s.Set(fmt.Sprintf("keep-%05d", i), i)
+	}
+	stop := make(chan struct{})
+	var wg sync.WaitGroup
+	for w := 0; w < writers; w++ {
+		wg.Add(1)
+		go func(w int) {
+			defer wg.Done()
+			for n := 0; ; n++ {
+				select {
+				case <-stop:
+					return
+				default:
+				}
+				k := fmt.Sprintf("tmp-%d-%d", w, n%7)
+				s.Set(k, n)
+				if n%3 == 0 {
+					s.Merge(map[string]any{k + "-m": n})
+					s.Delete(k + "-m")
+				}
+				s.Delete(k)
+			}
+		}(w)
+	}
+	var mu sync.Mutex
+	finding := ""
+	report := func(f string) {
+		mu.Lock()
+		if finding == "" {
+			finding = f
+		}
+		mu.Unlock()
+	}
+	var rg sync.WaitGroup
+	for rd := 0; rd < readers; rd++ {
+		rg.Add(1)
+		go func(rd int) {
+			defer rg.Done()
+			for n := 0; n < calls; n++ {
+				switch (n + rd) % 3 {
+				case 0:
+					got := 0
+					for _, k := range s.Keys() {
+						if strings.HasPrefix(k, "keep-") {
+							got++
+						}
+					}
+					if got != keep {
+						report(fmt.Sprintf("Keys() call %d of a reader returned %d of the %d long-lived keys (set before the readers started, never touched since) while 4 writers add and remove short-lived keys", n, got, keep))
+						return
+					}
+				case 1:
+					got := 0
+					for k := range s.GetAll() {
+						if strings.HasPrefix(k, "keep-") {
+							got++
+						}
+					}
+					if got != keep {
+						report(fmt.Sprintf("GetAll() call %d of a reader holds %d of the %d long-lived keys", n, got, keep))
+						return
+					}
+				default:
+					if l := s.Len(); l < keep {
+						report(fmt.Sprintf("Len() = %d with %d long-lived keys in the store", l, keep))
+						return
+					}
+				}
+			}
+		}(rd)
+	}
+	rg.Wait()
+	close(stop)
+	wg.Wait()
+	return finding
 }
